@@ -1,5 +1,5 @@
 from .common import *
-from . import c08
+from . import c08, c07
 
 def run(tier):
     r = Run('C06', tier)
@@ -10,11 +10,16 @@ def run(tier):
     # the full-length tag comparison itself (shared with C08): accepts iff every tag byte matches, for all tag fields; replayable on the real hash
     for ht_ in (0, 1, 2):
         c08.cmp_obligations(r, tier, ht_, prefix='tag-')
+    # "any other key is rejected" needs every bit of the key block to reach the MAC: the compression functions the HMAC is built from are the
+    # standard ones (message words from ALL bits of the block, schedule, rounds) - the K obligations of C07, on the real sha1/md5/sha256 code
+    uh = U_hash()
+    for alg in (0, 1, 2):
+        c07.compress_obligations(r, uh, tier, alg, prefix='hash-')
     r.bounds = ['files of length %s; all contents, all (key, key\') pairs: the file\'s tag is arbitrary, in particular any tag computed under another key' % lens]
     r.outside = ['A-KEY (cryptographic): HMAC(k\',m) != HMAC(k,m) for k\' != k - not a solver claim; what the solver decides is that acceptance depends on the supplied key only through the full-length tag comparison, that all 16 key bytes enter the MAC, and that rejection writes nothing']
-    r.assumptions = ['A-KEY', 'A-MAC', 'compression functions uninterpreted (C07)']
+    r.assumptions = ['A-KEY', 'A-MAC', 'compression functions uninterpreted in the gate obligations; tied to the standards by the hash-K-* obligations (shared with C07)']
     r.run_all(jobs=12)
     return r.finish()
 
 def replay(rp):
-    return generic_replay(rp, {'kern_gate': U_kern, 'kern_ufh': U_kern, 'kern': U_kern})
+    return generic_replay(rp, {'hash': U_hash, 'kern_gate': U_kern, 'kern_ufh': U_kern, 'kern': U_kern})
